@@ -1,11 +1,11 @@
 package main
 
 import (
-	"sync"
 	"fmt"
 	"os"
 	"runtime"
 	"strings"
+	"sync"
 	"syscall"
 	"time"
 
@@ -16,7 +16,7 @@ import (
 func init() { props["C14"] = runC14 }
 
 func runC14(res *Result, d *Driver, tier string, seed uint64) {
-	res.Rule = "part A: real container; a previous program plants objects at the requested paths (symlink to a host-visible file, dangling symlink, FIFO, directory, socket, unreadable file) and the host then issues Open batches of length 0..L with random per-item fate (existing regular file, new file, MkdirAll, planted object, unwritable directory) and random access modes: results must be index-aligned, a File only for a regular or new file whose (dev,ino) equals the host's view of that path under /proc/<init>/root and whose access mode is the requested one, never a block on a FIFO; Symlink and Delete likewise; " +
+	res.Rule = "part A: real container; a previous program plants objects at the requested paths (symlink to a host-visible file, dangling symlink, FIFO, directory, socket, unreadable file) and the host then issues Open batches of length 0..L with random per-item fate (existing regular file, new file, MkdirAll, planted object, unwritable directory) and random access modes: results must be index-aligned, a File only for a regular or new file whose (dev,ino) equals the host's view of that path under /proc/<init>/root and whose access mode is the requested one, never a block on a FIFO; Symlink and Delete likewise; length-0 batches followed by checked operations; a 250-item batch repeated 400 (2500 thorough) times on one environment with every descriptor checked by inode; " +
 		"part B: the host side over a socketpair with a scripted (dishonest) container peer: replies with a wrong batch length or fewer descriptors than successes must yield an error and leave the process' descriptor count unchanged; the same requests are fed to the model (driver) for the honest case. non-trivial = batch with at least one failing and one succeeding item / dishonest reply; distinct = batches."
 	rng := NewRng(seed, "C14", 1)
 	before := childPids()
@@ -161,6 +161,117 @@ func runC14(res *Result, d *Driver, tier string, seed uint64) {
 		if it == 0 {
 			res.Sample(key)
 		}
+	}
+	// the length-0 corner followed by checked operations: every later answer still belongs to its own request
+	for it := 0; it < 3; it++ {
+		env.Reset()
+		var bad []string
+		if _, err := env.Open(nil); err == nil {
+			bad = append(bad, "empty Open batch accepted")
+		}
+		if _, err := env.Symlink(nil); err == nil {
+			bad = append(bad, "empty Symlink batch accepted")
+		}
+		if err := env.Delete("/w/never-there"); err == nil {
+			bad = append(bad, "Delete of a missing path reported success")
+		}
+		rs, err := env.Open([]container.OpenCmd{{Path: "/w/after-empty", Flag: os.O_CREATE | os.O_RDWR, Perm: 0644}, {Path: "/w/nodir/x", Flag: os.O_CREATE | os.O_RDWR, Perm: 0644}})
+		if err != nil || len(rs) != 2 || rs[0].File == nil || rs[1].File != nil || rs[1].Err == nil {
+			bad = append(bad, fmt.Sprintf("Open [new file, impossible path] after the empty batches: err=%v results=%d", err, len(rs)))
+		} else {
+			var a, b syscall.Stat_t
+			e1 := syscall.Fstat(int(rs[0].File.Fd()), &a)
+			e2 := syscall.Stat(root+"/w/after-empty", &b)
+			if e1 != nil || e2 != nil || a.Ino != b.Ino || a.Dev != b.Dev {
+				bad = append(bad, "the file returned after the empty batches is not /w/after-empty")
+			}
+		}
+		for _, r := range rs {
+			if r.File != nil {
+				r.File.Close()
+			}
+		}
+		errs, err := env.Symlink([]container.SymbolicLink{{LinkPath: "/w/l-after", Target: "/w/after-empty"}, {LinkPath: "/w/nodir/l", Target: "x"}})
+		if err != nil || len(errs) != 2 || errs[0] != nil || errs[1] == nil {
+			bad = append(bad, fmt.Sprintf("Symlink [ok, impossible] after the empty batches: err=%v results=%v", err, errs))
+		}
+		if err := env.Delete("/w/after-empty"); err != nil {
+			bad = append(bad, "Delete of the file just created failed: "+err.Error())
+		}
+		if err := env.Delete("/w/after-empty"); err == nil {
+			bad = append(bad, "second Delete of the same file reported success")
+		}
+		if e := env.Ping(); e != nil {
+			bad = append(bad, "Ping: "+e.Error())
+		}
+		res.Case("empty batches then checked operations "+itoa(it), true, "after-empty-batch")
+		res.Traces++
+		if len(bad) > 0 {
+			res.Mismatch(Mismatch{Kind: "oracle", What: "after a length-0 batch every later answer belongs to its own request (C14)", Input: "Open(nil); Symlink(nil); Delete(missing); Open[new, impossible]; Symlink[ok, impossible]; Delete; Delete; Ping", Impl: strings.Join(bad, "; "), Oracle: "violates"})
+			env.Close()
+			if env, err = newEnv(container.Builder{}); err != nil {
+				fatal("container: %v", err)
+			}
+		}
+	}
+	// large batches, many times over on one environment: every returned descriptor is still the file of its own item
+	{
+		env.Reset()
+		const nb = 250
+		var mk []string
+		for i := 0; i < nb; i += 2 {
+			mk = append(mk, fmt.Sprintf("touch /w/big%d", i))
+		}
+		env.runProbe(RunSpec{Script: strings.Join(mk, ";") + ";exit 0"}, false)
+		var cmds []container.OpenCmd
+		wantIno := make([]uint64, nb)
+		for i := 0; i < nb; i++ {
+			if i%2 == 0 {
+				cmds = append(cmds, container.OpenCmd{Path: fmt.Sprintf("/w/big%d", i), Flag: os.O_RDONLY})
+				var st syscall.Stat_t
+				syscall.Stat(fmt.Sprintf("%s/w/big%d", root, i), &st)
+				wantIno[i] = st.Ino
+			} else {
+				cmds = append(cmds, container.OpenCmd{Path: fmt.Sprintf("/w/absent%d", i), Flag: os.O_RDONLY})
+			}
+		}
+		rounds := 400
+		if tier == "thorough" {
+			rounds = 2500
+		}
+		for rd := 0; rd < rounds; rd++ {
+			rs, err := env.Open(cmds)
+			var bad []string
+			if err != nil || len(rs) != nb {
+				bad = append(bad, fmt.Sprintf("call failed: err=%v results=%d", err, len(rs)))
+			}
+			for i, r := range rs {
+				if (r.File != nil) != (i%2 == 0) || (r.Err != nil) != (i%2 == 1) {
+					bad = append(bad, fmt.Sprintf("item %d: file=%v err=%v", i, r.File != nil, r.Err))
+				} else if r.File != nil {
+					var st syscall.Stat_t
+					if e := syscall.Fstat(int(r.File.Fd()), &st); e != nil || st.Ino != wantIno[i] {
+						bad = append(bad, fmt.Sprintf("item %d: the descriptor is not /w/big%d (inode %d, want %d, %v)", i, i, st.Ino, wantIno[i], e))
+					}
+				}
+				if r.File != nil {
+					r.File.Close()
+				}
+				if len(bad) > 4 {
+					break
+				}
+			}
+			res.Case("big batch round "+itoa(rd), true, "big-batch")
+			if len(bad) > 0 {
+				res.Mismatch(Mismatch{Kind: "oracle", What: "Open batch of 250 items (125 existing files, 125 absent), repeated: index-aligned descriptors of the right files (C14)", Input: fmt.Sprintf("round %d of %d on one environment", rd, rounds), Impl: strings.Join(bad, "; "), Oracle: "violates"})
+				env.Close()
+				if env, err = newEnv(container.Builder{}); err != nil {
+					fatal("container: %v", err)
+				}
+				break
+			}
+		}
+		res.Traces++
 	}
 	// Symlink / Delete alignment
 	for it := 0; it < n/4+2; it++ {
@@ -371,4 +482,3 @@ func fcntlGetfl(fd int) (int, error) {
 	}
 	return int(r), nil
 }
-
